@@ -133,3 +133,27 @@ Print Assumptions C16_ex_to_pep440.
 Example C16_ex_final_not_pep440 : is_pep440 (S' "1.0-final") = false.
 Proof. vm_compute. reflexivity. Qed.
 Print Assumptions C16_ex_final_not_pep440.
+
+(* ---- Proofs.DottedFacts ---- *)
+From Coq Require Import List Bool NArith ZArith Arith.
+From BV Require Import Lib.PyStr Lib.Decimal Model.Pep440 Proofs.DottedFacts.
+Import ListNotations.
+Theorem C16_parse_dotted : forall ns : list N, ns <> [] -> parse_pep440 (dotted ns) = Some {| pv_epoch := 0; pv_release := ns; pv_pre := None; pv_post := None; pv_dev := None; pv_local := None |}.
+Proof. exact parse_dotted. Qed.
+Print Assumptions C16_parse_dotted.
+
+Theorem C16_version_key_dotted : forall ns : list N, ns <> [] -> version_key (dotted ns) = KVer 0 (drop_trailing_zeros ns) PPosInf PNegInf PPosInf None.
+Proof. exact version_key_dotted. Qed.
+Print Assumptions C16_version_key_dotted.
+
+Theorem C16_is_pep440_dotted : forall ns : list N, ns <> [] -> is_pep440 (dotted ns) = true.
+Proof. exact is_pep440_dotted. Qed.
+Print Assumptions C16_is_pep440_dotted.
+
+Theorem C16_ver_le_dotted : forall a b : list N, a <> [] -> b <> [] -> length a = length b -> ver_le (dotted a) (dotted b) = match cmp_list N.compare a b with | Gt => false | _ => true end.
+Proof. exact ver_le_dotted. Qed.
+Print Assumptions C16_ver_le_dotted.
+
+Theorem C16_ver_lt_dotted : forall a b : list N, a <> [] -> b <> [] -> length a = length b -> ver_lt (dotted a) (dotted b) = match cmp_list N.compare a b with | Lt => true | _ => false end.
+Proof. exact ver_lt_dotted. Qed.
+Print Assumptions C16_ver_lt_dotted.
